@@ -228,6 +228,27 @@ func runCheck(prop, tier string, seed int) (int, *Evidence) {
 		}
 	}
 	_ = nTagged
+	if only := os.Getenv("VCHECK_ONLY_FILES"); only != "" {
+		// selftest replay of a seeded change (nested run, after the same tree verified without the change): verification is
+		// modular, so only the functions defined in the files the change touches can have different obligations
+		set := map[string]bool{}
+		for _, f := range strings.Split(only, ",") {
+			set[strings.TrimSpace(f)] = true
+		}
+		var kept []*FuncResult
+		for _, r := range results {
+			file := r.Pos
+			if i := strings.Index(file, ":"); i >= 0 {
+				file = file[:i]
+			}
+			if set[file] || set[filepath.Base(file)] {
+				kept = append(kept, r)
+			}
+		}
+		if len(kept) > 0 {
+			results = kept
+		}
+	}
 	if len(results) == 0 {
 		return fail("no function under contract for %s", prop)
 	}
@@ -543,6 +564,9 @@ func selfTest(prop string) []map[string]string {
 		}
 		c := exec.Command(self, "check", "--prop", prop, "--tier", "quick")
 		c.Env = append(os.Environ(), "VCHECK_NESTED=1", "VCHECK_REPO="+work, "VCHECK_OUT="+filepath.Join(tmp, "out"))
+		if files := patchedFiles(patch); files != "" {
+			c.Env = append(c.Env, "VCHECK_ONLY_FILES="+files)
+		}
 		b, _ := c.CombinedOutput()
 		code := c.ProcessState.ExitCode()
 		var first string
@@ -570,4 +594,25 @@ func selfTest(prop string) []map[string]string {
 		os.RemoveAll(tmp)
 	}
 	return out
+}
+
+
+// patchedFiles lists the source files a patch touches ("" if it touches anything but .go / .c files, e.g. a header:
+// then every function is re-verified).
+func patchedFiles(patch string) string {
+	b, err := os.ReadFile(patch)
+	if err != nil {
+		return ""
+	}
+	var fs []string
+	for _, ln := range strings.Split(string(b), "\n") {
+		if strings.HasPrefix(ln, "+++ b/") {
+			f := strings.TrimSpace(strings.TrimPrefix(ln, "+++ b/"))
+			if !strings.HasSuffix(f, ".go") && !strings.HasSuffix(f, ".c") {
+				return ""
+			}
+			fs = append(fs, f)
+		}
+	}
+	return strings.Join(fs, ",")
 }
